@@ -3,9 +3,10 @@
    trailing blanks on every line, any trailing block of lines, final newline present or not;
    C10_import_leading_zeros: additionally every number written with any number of leading zeros (files whose
    numbers are non-negative; a zero in front of a minus sign is not a number for Python either, see
-   C10_leading_zeros_need_nonneg).  "\r\n" line ends are covered by the correspondence R_import only. *)
+   C10_leading_zeros_need_nonneg); C10_import_crlf: DOS line ends ("\r\n" after every line).  A lone "\r" inside a line
+   is outside the model (Python's universal newlines end the line there). *)
 From MP Require Import Text.Render Text.RenderWs Text.RenderPad Proofs.ImportProofs Proofs.ImportWsProofs
-                       Proofs.ImportPadProofs.
+                       Proofs.ImportPadProofs Proofs.ImportCrlfProofs.
 Local Open Scope list_scope. Open Scope Z_scope.
 
 (* for every abstract file of the documented format (any counts, list lengths, tie groups anywhere, empty
@@ -54,6 +55,13 @@ Theorem C10_leading_zeros_need_nonneg :
   import_model (render_pad 2 cex_ast [] cex_lys [] true) 2 false = Ok (denote 2 false cex_ast).
 Proof. exact pad_counterexample. Qed.
 Print Assumptions C10_leading_zeros_need_nonneg.
+
+(* DOS line ends: every line (trailer included) followed by "\r\n" *)
+Theorem C10_import_crlf : forall (na : Z) (twopl : bool) (A : file_ast) (trailer : list string),
+  wf_ast na twopl A = true ->
+  import_model (render_crlf na A trailer) na twopl = Ok (denote na twopl A).
+Proof. exact import_render_crlf. Qed.
+Print Assumptions C10_import_crlf.
 
 Example C10_example :
   let A := mkAst 2 2 2 [[[1;2]]; [[2];[1]]] [(0,1,1);(0,2,1)] [] [(0,1,2,[[1];[2]]); (0,0,1,[])] in
